@@ -37,3 +37,23 @@ p = 'coq/_CoqProject'
 s = open(p).read()
 s = blocks(s).sub(lambda m: m.group(1) + m.group(2), s)
 open(p, 'w').write(s)
+# Properties files: both sides appended theorem blocks / import lines at the same place: HEAD's text, then the other
+# side's lines that HEAD does not have (an import line whose modules HEAD already imports is dropped)
+import glob
+for p in glob.glob('coq/Properties/C*.v'):
+    s = open(p).read()
+    if '<<<<<<<' not in s:
+        continue
+    def fix_prop(m):
+        a, b = m.group(1), m.group(2)
+        mods = set(w.rstrip('.') for l in a.splitlines() if l.startswith('From Astisub Require Import') for w in l.split()[4:])
+        out = a
+        for l in b.splitlines():
+            if l in a.splitlines():
+                continue
+            if l.startswith('From Astisub Require Import') and set(w.rstrip('.') for w in l.split()[4:]) <= mods:
+                continue
+            out += l + '\n'
+        return out
+    s = blocks(s).sub(fix_prop, s)
+    open(p, 'w').write(s)
